@@ -41,6 +41,9 @@ type Config struct {
 	ChunkedReader int
 	// NoCRC: views do not implement storage.StoreCRC.
 	NoCRC bool
+	// EOFWithData: readers returned by Get deliver their last bytes TOGETHER with io.EOF (legal for an io.Reader and
+	// usual for HTTP bodies), instead of a final (0, io.EOF).
+	EOFWithData bool
 }
 
 // Clock provides object times.
@@ -97,6 +100,7 @@ type Event struct {
 	Size   int    `json:"size,omitempty"`
 	Sum    uint32 `json:"sum,omitempty"` // crc32 of the bytes written
 	N      int    `json:"n,omitempty"`   // number of keys returned by a listing
+	T      int64  `json:"t,omitempty"`   // touch: the update time given to the object (unix nanoseconds)
 }
 
 // World is a set of stores sharing one lock, one log, one clock.
@@ -643,6 +647,7 @@ func b2i(b bool) int {
 type chunkedReader struct {
 	data []byte
 	n    int
+	eofT bool // the last bytes come together with io.EOF
 }
 
 func (c *chunkedReader) Read(p []byte) (int, error) {
@@ -658,6 +663,9 @@ func (c *chunkedReader) Read(p []byte) (int, error) {
 	}
 	copy(p, c.data[:n])
 	c.data = c.data[n:]
+	if c.eofT && len(c.data) == 0 {
+		return n, io.EOF
+	}
 	return n, nil
 }
 
@@ -696,7 +704,10 @@ func (v *View) Get(_ context.Context, key string) (io.ReadCloser, error) {
 	}
 	v.record(Event{Op: "get", Key: key, Size: len(o.data)})
 	if n := w.Cfg.ChunkedReader; n > 0 {
-		return &chunkedReader{data: o.data, n: n}, nil
+		return &chunkedReader{data: o.data, n: n, eofT: w.Cfg.EOFWithData}, nil
+	}
+	if w.Cfg.EOFWithData {
+		return &chunkedReader{data: o.data, n: 1 << 30, eofT: true}, nil
 	}
 	return ioutil.NopCloser(bytes.NewReader(o.data)), nil
 }
@@ -776,7 +787,7 @@ func (v *View) Touch(_ context.Context, key string) error {
 		v.record(Event{Op: "touch", Key: key, Err: errStr(err)})
 	} else {
 		o.updated = w.Clock.Now()
-		v.record(Event{Op: "touch", Key: key, Landed: true})
+		v.record(Event{Op: "touch", Key: key, Landed: true, T: o.updated.UnixNano()})
 	}
 	w.mu.Unlock()
 	v.post(vd, "touch", key)
